@@ -19,6 +19,8 @@ Metas == { Meta("prog", NoM, NoM),
            Meta("p3", [name |-> "dev", hasargs |-> TRUE, args |-> <<>>,
                        kw |-> <<Kw("cutoffs", LstE(<<I(5), I(7)>>)), Kw("labels", LstE(<<[t |-> "str", s |-> "a"], [t |-> "str", s |-> "b"]>>)), Kw("shots", I(3))>>],
                       [name |-> "foo", hasargs |-> TRUE, args |-> <<>>, kw |-> <<Kw("u", LstE(<<I(1)>>)), Kw("v", LstE(<<F(1, 2), I(2)>>))>>]),
+           \* p-arrays are special under the exact type name "tdm" only
+           Meta("p5", NoM, [name |-> "TDM"] @@ NoArgs), Meta("p6", NoM, [name |-> "tdm"] @@ NoArgs),
            \* positional options are evaluated and ignored (with a warning); only the keyword options are kept
            Meta("p4", [name |-> "dev", hasargs |-> TRUE, args |-> <<I(3), F(1, 2)>>, kw |-> <<Kw("shots", I(7))>>],
                       [name |-> "foo", hasargs |-> TRUE, args |-> <<[t |-> "str", s |-> "x"]>>, kw |-> <<>>]) }
@@ -43,6 +45,9 @@ Items == {
   Stmt("K", TRUE, <<>>, <<>>, <<I(2)>>, "sq"),
   \* free parameters: an ordinary name, names that merely begin like the reserved p<digits> names, and a reserved one
   Stmt("Pq", TRUE, <<[t |-> "par", p |-> "p2x"]>>, <<Kw("k", [t |-> "par", p |-> "p0_bs"])>>, <<I(0)>>, "none"),
+  [t |-> "arr", ty |-> "float", x |-> "p0", shape |-> <<>>, rows |-> << <<F(1, 2), F(3, 2)>> >>],
+  Stmt("Xp", TRUE, <<Var("p0")>>, <<Kw("phi", Var("p0"))>>, <<I(1)>>, "none"),
+  Stmt("Pa", TRUE, <<[t |-> "par", p |-> "al"], [t |-> "bin", op |-> "*", l |-> Var("al"), r |-> I(2)]>>, <<Kw("k", Var("n"))>>, <<I(0)>>, "none"),     \* {al} next to the variable al
   Stmt("Pr", TRUE, <<[t |-> "par", p |-> "p3"], [t |-> "par", p |-> "alpha"]>>, <<>>, <<I(1)>>, "none"),
   Stmt("MeasureFock", TRUE, <<>>, <<Kw("select", LstE(<<I(0), I(2)>>)), Kw("dark_counts", LstE(<<[t |-> "bool", b |-> TRUE], F(1, 2)>>)), Kw("x", LstE(<<I(7)>>))>>, <<I(0), I(1)>>, "sq"),
   Stmt("S2gate", TRUE, <<Var("z"), Var("s"), Var("b")>>, <<>>, <<[t |-> "bin", op |-> "+", l |-> Var("n"), r |-> I(1)]>>, "none"),
